@@ -37,6 +37,9 @@ type C17Case struct {
 	// InCallback (reattach, old connection fails first): the owner brings the peer back from inside the disconnect
 	// callback, by calling AddClient there
 	InCallback bool `json:"in_callback,omitempty"`
+	// StuckRoute (badpeer/stuck-writer): how the flood of envelopes is routed to the stuck peer: by destination, as the
+	// next hop of a return route (ProxyNext) with some other destination, or alternating
+	StuckRoute string `json:"stuck_route,omitempty"`
 	// common
 	Rounds   int  `json:"rounds"`    // honest ping-pong rounds between c0 and c1
 	CancelAt int  `json:"cancel_at"` // cancel: after this many steps
@@ -52,6 +55,7 @@ func genC17(t *rapid.T) C17Case {
 	c.Spoof = rapid.SampledFrom([]string{"other-source", "empty-source", "no-header", "unattached-source"}).Draw(t, "spoof")
 	c.Role = rapid.SampledFrom([]string{"stuck-writer", "failing-reader", "failing-writer", "dial-error", "slow-dial", "slow-failing-dial", "both-fail-busy", "many-slow-dials"}).Draw(t, "role")
 	c.OldFailsFirst = rapid.Bool().Draw(t, "old_first")
+	c.StuckRoute = rapid.SampledFrom([]string{"dest", "next", "mixed"}).Draw(t, "stuck_route")
 	c.FailKind = rapid.SampledFrom([]string{"read", "write"}).Draw(t, "failkind")
 	c.InCallback = c.Mode == "reattach" && c.OldFailsFirst && rapid.Bool().Draw(t, "in_callback")
 	c.Rounds = rapid.IntRange(1, 6).Draw(t, "rounds")
@@ -240,7 +244,12 @@ func execC17(t *testing.T, c C17Case) (v Verdict) {
 				bad := w.attach("bad")
 				bad.B.Hold(func(*kit.Rpc) bool { return true }) // writes to it never complete
 				for i := 0; i < 20; i++ {
-					_ = c0.A.Write(bg, pxEnv("c0", "bad", 500+i))
+					e := pxEnv("c0", "bad", 500+i)
+					if c.StuckRoute == "next" || (c.StuckRoute == "mixed" && i%2 == 1) {
+						e = pxEnv("c0", "c1", 500+i)
+						e.Header.ProxyNext = []string{"bad"} // a reply on its way back along a recorded route
+					}
+					_ = c0.A.Write(bg, e)
 				}
 			case "failing-reader":
 				bad := badPeer()
